@@ -514,6 +514,10 @@ def run_c15(ctx):
         mc_states=mcs[0].distinct, sanity_pinned_loop_rejected_by_tlc=mcs[1].invariant_violated,
         samples=samples or [dict(case=cases[0], err=outs[0]["err"])],
     )
+    # the text every clause is made of (spec/Echo.tla): StrEscape's buffer mechanism against its contract, clause laws,
+    # every vector replayed on the real helpers (differences are DRIFT notes; clause texts are judged above)
+    from . import fam_aux
+    cov.update(fam_aux.echo(ctx, vh, quick))
     return ctx.finish("model_checking", cov, C15_ASSUMPTIONS)
 
 
